@@ -116,6 +116,9 @@ enum Ev {
     AcquireMissingField,
     AcquireTrailingGarbage,
     AcquireNonHexKey,
+    /// a well-formed hex key of an unusual size (128 bit / 512 bit)
+    AcquireShortHexKey,
+    AcquireLongHexKey,
     Acquire500WithKeyInBody,
     StatusMalformed,
     Attest500,
@@ -219,6 +222,13 @@ fn start_host(sh: Arc<Shared>) -> MockHost {
                     host.issued.push(format!("ZZ{}", &secret[2..]));
                     Action::Reply(vec![simple_response(200, &[("Content-Type", "application/json")], d.to_string().as_bytes())])
                 }
+                Some(e @ (Ev::AcquireShortHexKey | Ev::AcquireLongHexKey)) => {
+                    let k = if e == Ev::AcquireShortHexKey { secret[..32].to_string() } else { format!("{}{}", secret, secret_of(host.hist_tag, i + 1000)) };
+                    let mut d = good.clone();
+                    d["key"] = json!(k);
+                    host.issued.push(k);
+                    Action::Reply(vec![simple_response(200, &[("Content-Type", "application/json")], d.to_string().as_bytes())])
+                }
                 Some(Ev::Acquire500WithKeyInBody) => Action::Reply(vec![simple_response(500, &[("Content-Type", "application/json")], good.to_string().as_bytes())]),
                 other => {
                     host.fault = other;
@@ -251,11 +261,23 @@ struct Child {
 }
 
 impl Child {
-    fn spawn(run_dir: &str, seg: usize) -> Child {
+    /// `slow_acl`: the environment answers every chown/chmod on the key directory 0.7 s late (strace delay injection
+    /// on exactly those calls); the order "directory restricted, then first key requested" must not depend on their speed
+    fn spawn(run_dir: &str, seg: usize, slow_acl: bool) -> Child {
+        use std::os::unix::process::CommandExt;
         let exe = std::env::current_exe().unwrap();
         let out = std::fs::File::create(format!("{run_dir}/child{seg}.stdout")).unwrap();
         let err = std::fs::File::create(format!("{run_dir}/child{seg}.stderr")).unwrap();
-        let p = std::process::Command::new(exe).env("VERIF_C12_CHILD", "1").stdin(std::process::Stdio::piped()).stdout(out).stderr(err).spawn().unwrap();
+        let mut cmd;
+        if slow_acl {
+            cmd = std::process::Command::new("strace");
+            cmd.args(["-f", "-qq", "-e", "trace=chown,lchown,fchownat,chmod,fchmodat", "-e", "inject=chown,lchown,fchownat,chmod,fchmodat:delay_enter=700000", "-P", KEYS_DIR, "-o", "/dev/null"]);
+            cmd.arg(exe);
+        } else {
+            cmd = std::process::Command::new(exe);
+        }
+        cmd.process_group(0);
+        let p = cmd.env("VERIF_C12_CHILD", "1").stdin(std::process::Stdio::piped()).stdout(out).stderr(err).spawn().unwrap_or_else(|e| vcommon::result::machinery(&format!("spawn: {e}")));
         Child { proc_: p, n: 0, run_dir: run_dir.to_string() }
     }
     fn request(&mut self, kind: &str) -> Vec<u8> {
@@ -275,6 +297,10 @@ impl Child {
         }
     }
     fn kill(mut self) {
+        // the whole group: a tracee survives the death of its tracer
+        unsafe {
+            libc::kill(-(self.proc_.id() as i32), libc::SIGKILL);
+        }
         let _ = self.proc_.kill();
         let _ = self.proc_.wait();
     }
@@ -388,12 +414,14 @@ fn main() {
         vec![Ev::Enable, Ev::Restart, Ev::Rotate],
         vec![Ev::Disable, Ev::Enable, Ev::Restart],
     ];
-    let faults = [Ev::AcquireMissingField, Ev::AcquireTrailingGarbage, Ev::AcquireNonHexKey, Ev::Acquire500WithKeyInBody, Ev::StatusMalformed, Ev::Attest500];
-    let mut histories: Vec<(Vec<Ev>, u32)> = Vec::new(); // (events, key dir pre-state: 0 absent, 1 left-over 0755 dir)
+    let faults = [Ev::AcquireMissingField, Ev::AcquireTrailingGarbage, Ev::AcquireNonHexKey, Ev::AcquireShortHexKey, Ev::AcquireLongHexKey, Ev::Acquire500WithKeyInBody, Ev::StatusMalformed, Ev::Attest500];
+    let mut histories: Vec<(Vec<Ev>, u32)> = Vec::new(); // (events, key dir pre-state: bit 0 = left-over 0755 dir (else absent), bit 1 = chown/chmod on the key directory answer 0.7 s late)
     for b in &base {
         histories.push((b.clone(), 0));
     }
     histories.push((vec![Ev::Enable, Ev::Noop], 1));
+    histories.push((vec![Ev::Enable, Ev::Noop], 2));
+    histories.push((vec![Ev::Enable, Ev::Restart, Ev::Rotate], 3));
     histories.push((vec![Ev::Enable, Ev::KeyDirRemoved, Ev::Rotate, Ev::Noop], 0));
     histories.push((vec![Ev::KeyDirRemoved, Ev::Enable, Ev::Noop], 0));
     histories.push((vec![Ev::Enable, Ev::KeyDirRemoved, Ev::Noop, Ev::Rotate], 0));
@@ -426,7 +454,8 @@ fn main() {
     let mut keys_issued_total = 0u64;
     for (hi, (hist, pre)) in histories.iter().enumerate() {
         clean_state();
-        if *pre == 1 {
+        let slow_acl = *pre & 2 != 0;
+        if *pre & 1 == 1 {
             std::fs::create_dir_all(KEYS_DIR).unwrap();
             std::fs::set_permissions(KEYS_DIR, std::fs::Permissions::from_mode(0o755)).unwrap();
         }
@@ -436,7 +465,7 @@ fn main() {
         }
         let case = json!({"history": hist.iter().map(|e| format!("{:?}", e)).collect::<Vec<_>>(), "key_dir_prestate": pre});
         let mut seg = 0usize;
-        let mut child = Child::spawn(&run_dir, seg);
+        let mut child = Child::spawn(&run_dir, seg, slow_acl);
         let mut responses: Vec<(String, Vec<u8>)> = Vec::new();
         let mut machinery_fail = false;
         if !wait_parked(&sh, 20) {
@@ -464,7 +493,7 @@ fn main() {
                         g.permits = 0;
                     }
                     seg += 1;
-                    child = Child::spawn(&run_dir, seg);
+                    child = Child::spawn(&run_dir, seg, slow_acl);
                     if !wait_parked(&sh, 20) {
                         machinery_fail = true;
                         break;
@@ -588,7 +617,7 @@ fn main() {
     res.cov("histories", histories.len() as u64);
     res.cov("keys_issued", keys_issued_total);
     res.cov("exhaustive", true);
-    res.cov("rule", "histories of host events over {enable, disable, rotate, no-op poll, agent restart} and one-shot faults that carry key material (acquire answered with the key but a missing field / trailing garbage / a non-hex key, 500 with the key in the body, a status document that fails validation, attest 500), with the key directory absent or left over with mode 0755, or removed by the environment while the agent runs (before the first latch / before a rotation), or with the stored key files damaged but still containing the key (bytes appended / closing brace lost) before a restart; the whole agent (real start_service, loggers at Trace, production paths) runs as a child process in lock-step with the mock host; after every poll six client requests (allowed IMDS, WireServer, denied, direct, /provision, /provision with notify); afterwards every file under the log/event/status/key directories (key files excepted), stdout/stderr, /dev/console and all client responses are searched for every secret issued (hex any case, raw bytes); non-trivial = history in which a key was issued".to_string());
+    res.cov("rule", "histories of host events over {enable, disable, rotate, no-op poll, agent restart} and one-shot faults that carry key material (acquire answered with the key but a missing field / trailing garbage / a non-hex key / a well-formed hex key of 128 or 512 bits, 500 with the key in the body, a status document that fails validation, attest 500), with the key directory absent or left over with mode 0755, with chown/chmod on the key directory answering 0.7 s late (strace delay injection), or removed by the environment while the agent runs (before the first latch / before a rotation), or with the stored key files damaged but still containing the key (bytes appended / closing brace lost) before a restart; the whole agent (real start_service, loggers at Trace, production paths) runs as a child process in lock-step with the mock host; after every poll six client requests (allowed IMDS, WireServer, denied, direct, /provision, /provision with notify); afterwards every file under the log/event/status/key directories (key files excepted), stdout/stderr, /dev/console and all client responses are searched for every secret issued (hex any case, raw bytes); non-trivial = history in which a key was issued".to_string());
     res.assume("the kernel program is not attached (no kprobes here); the child installs real kernel maps for attribution like the E2 world");
     std::process::exit(res.finish());
 }
